@@ -68,7 +68,9 @@ NestedStringTokenizer::NestedStringTokenizer(const std::string& s, const std::st
     string::size_type index = 0;
     while (index != s.npos)
     {
-      string::size_type newIndex = s.find(delimiters, index);
+      // An empty solid delimiter is found at every position without consuming anything
+      // (the loops below would never advance): it is treated as never found.
+      string::size_type newIndex = delimiters.empty() ? s.npos : s.find(delimiters, index);
       bool endBlockFound = false;
       while (!endBlockFound)
       {
